@@ -9,6 +9,9 @@ C01.c  [effect] no public member of any control flavour can write the registry (
 C01.d  [order] RV_<Automatic>: activating constructors call initialEnter exactly once, copy/move never, the destructor
        calls finalExit exactly once.
 C01.e  [cmp] activeStateId() returns the active slot; RV_<Manual>::isActive() == (active != invalid).
+C01.f  [table] save()/load() field tables agree and the buffer is cleared before the first write (precondition of the load rule).
+C01.g  [effect] copy/move construction and assignment of library objects write only the object they initialise: the machine copied
+       or moved from keeps its registry (it stays a live object whose destructor / exit() runs finalExit()).
 """
 from lint import facts, ir, effects, anchors, cmpdomain, cfg as cfgmod
 from lint.cmpdomain import Obj
